@@ -66,8 +66,9 @@ func readTlvStream(
 			}
 		}
 
-		// If less than one packet space remains in buffer, shift to beginning
-		if recvOff-tlvOff < defn.MaxNDNPacketSize {
+		// Shift the unread part (at most one packet, see above) to the beginning,
+		// so that the next read always has room
+		if recvOff-tlvOff <= defn.MaxNDNPacketSize {
 			copy(recvBuf, recvBuf[tlvOff:recvOff])
 			recvOff -= tlvOff
 			tlvOff = 0
